@@ -1,5 +1,5 @@
 (* Pins_C05.v — the statements of Props_C05.v, pinned: weakening a theorem there breaks this file. *)
-From FV Require Import Base FsModel AtomicModel Props_C05.
+From FV Require Import Base FsModel AtomicModel TempNameModel TempNameProofs Props_C05.
 Open Scope N_scope.
 Check C05_crash_invariant : forall (sl : bool) (c : fcmd) (s : fs) (o : oracle) (i : nat) (st : fs),
   pre c s -> In st (states o i (prog_of sl c) s) ->
@@ -23,3 +23,18 @@ Check C05_counted_iff_ok : forall (sl : bool) (o : oracle) (i : nat) (cs : list 
   (forall c rest, cs = c :: rest ->
      sresults t = ores (run o i (prog_of sl c) s)
                   :: sresults (run_script sl o (oidx (run o i (prog_of sl c) s)) rest (ofs (run o i (prog_of sl c) s)))).
+
+Check C05_temp_name_fits :
+  forall name sfx, length sfx = 24%nat -> (length (temp_name name sfx) <= 255)%nat.
+Check C05_temp_name_prefix_of_victim :
+  forall name, exists r, name = temp_stem name ++ r.
+Check C05_temp_name_short_unchanged :
+  forall name sfx, (length name <= 230)%nat -> temp_name name sfx = name ++ 46%N :: sfx.
+Check C05_temp_name_cut_at_char_boundary :
+  forall name, (max_stem < length name)%nat ->
+    temp_stem name = [] \/ is_cont (nth (length (temp_stem name)) name 0%N) = false.
+Check (eq_refl : temp_name = fun name sfx => temp_stem name ++ 46%N :: sfx).
+Check (eq_refl : temp_stem = fun name => if (length name <=? max_stem)%nat then name else firstn (cut_at name max_stem) name).
+Check (eq_refl : max_stem = 230%nat).
+Check (eq_refl : is_cont = fun b => ((128 <=? b) && (b <? 192))%N).
+
